@@ -1,7 +1,6 @@
 import Driver.Util
 import Driver.Bulk
 import Driver.Numscript
-import Driver.Router
 import Driver.Lock
 import Driver.Paginate
 import Driver.Log
@@ -17,7 +16,6 @@ namespace Driver
 def areas : List (String × Handler) := [
   ("bulk", BulkD.handle),
   ("numscript", NumscriptD.handle),
-  ("router", RouterD.handle),
   ("lock", LockD.handle),
   ("paginate", PaginateD.handle),
   ("logrt", LogD.handle),
